@@ -113,6 +113,9 @@ fn sequences(base: Base, k: usize) -> Vec<Vec<LOp>> {
 pub struct Scenario {
     pub base: Base,
     pub seqs: Vec<Vec<LOp>>,
+    /// also run the replicas' first syncs overlapping in time (all interleavings)
+    #[serde(default)]
+    pub overlap: bool,
 }
 
 fn permutations(n: usize) -> Vec<Vec<usize>> {
@@ -277,6 +280,24 @@ pub fn check_scenario(sc: &Scenario) -> Result<(bool, u64), (String, String)> {
             }
         }
     }
+    // the replicas' first syncs overlapping in time: every interleaving of their server requests
+    // must converge to the same state as the sequential orders (pairs; triples preemption bound 2)
+    if sc.overlap {
+        let mut w = base_world(sc.base, r);
+        for (i, seq) in sc.seqs.iter().enumerate() {
+            for op in seq {
+                do_local(&mut w, &op.act(i)).map_err(|e| ("harness".to_string(), e))?;
+            }
+        }
+        let race = super::c02::Race { world: w, racers: (0..r).collect(), urg: Urg::None, snapshots_only: false, must_be_absent: vec![], must_be_present: vec![], expect_tasks: first.as_ref().map(|f| f.1.clone()) };
+        let cfg = crate::explore::sched::ExploreCfg { bound: if r >= 3 { 2 } else { usize::MAX }, max_schedules: 100_000, deadline: None, seen: Some(Default::default()) };
+        let (st, fails) = crate::explore::sched::explore(&race, &cfg);
+        runs += st.schedules;
+        if let Some(f) = fails.into_iter().next() {
+            let sched: Vec<String> = f.trace.iter().map(|(c, l)| format!("R{}:{l}", c.task)).collect();
+            return Err((f.what.split(':').next().unwrap_or("").to_string(), format!("{} [overlapping syncs, schedule {sched:?}]", f.what)));
+        }
+    }
     // non-trivial: at least two replicas touched the same task
     let mut touched: BTreeMap<u8, std::collections::BTreeSet<usize>> = BTreeMap::new();
     for (i, s) in sc.seqs.iter().enumerate() {
@@ -399,7 +420,7 @@ fn run_family(rep: &Report, name: &str, scenarios: Vec<Scenario>) {
 pub fn run(opts: &Opts) -> i32 {
     let rep = Report::new("C03", "model_checking", opts);
     rep.set("exhaustive", true);
-    rep.set("rule", "scenario = common synced base (empty, or T1{p=base},T2{}) x one valid local operation sequence per replica (alphabet: updates of T1.p to a/b/absent at t=1,2, T1.q, T2.p, delete T1, create T1/T3) x EVERY order in which the replicas first sync; all executed on real replicas; oracle = documented winners (latest timestamp; delete beats update; creates kept; untouched properties kept; sole writer survives) + identical result for every sync order; non-trivial = scenarios in which at least two replicas touched the same task");
+    rep.set("rule", "scenario = common synced base (empty, or T1{p=base},T2{}) x one valid local operation sequence per replica (alphabet: updates of T1.p to a/b/absent at t=1,2, T1.q, T2.p, delete T1, create T1/T3) x EVERY order in which the replicas first sync, and (pairs; thorough also triples of single operations) their first syncs overlapping in time under every interleaving of their server requests; all executed on real replicas; oracle = documented winners (latest timestamp; delete beats update; creates kept; untouched properties kept; sole writer survives) + identical result for every sync order; non-trivial = scenarios in which at least two replicas touched the same task");
     rep.assume("where the documentation is silent (delete-and-recreate against concurrent updates; several updates of one property by one replica) only convergence, order independence and 'no invented value' are asserted");
     let q = opts.tier == Tier::Quick;
     let one = |b| sequences(b, 1);
@@ -410,7 +431,7 @@ pub fn run(opts: &Opts) -> i32 {
         let s = one(b);
         for x in &s {
             for y in &s {
-                f1.push(Scenario { base: b, seqs: vec![x.clone(), y.clone()] });
+                f1.push(Scenario { base: b, seqs: vec![x.clone(), y.clone()], overlap: true });
             }
         }
     }
@@ -422,7 +443,7 @@ pub fn run(opts: &Opts) -> i32 {
         for x in &s {
             for y in &s {
                 for z in &s {
-                    f3.push(Scenario { base: b, seqs: vec![x.clone(), y.clone(), z.clone()] });
+                    f3.push(Scenario { base: b, seqs: vec![x.clone(), y.clone(), z.clone()], overlap: !q });
                 }
             }
         }
@@ -434,7 +455,7 @@ pub fn run(opts: &Opts) -> i32 {
         let s = if q { two(b) } else { sequences(b, 3) };
         for x in &s {
             for y in &s {
-                f2.push(Scenario { base: b, seqs: vec![x.clone(), y.clone()] });
+                f2.push(Scenario { base: b, seqs: vec![x.clone(), y.clone()], overlap: true });
             }
         }
     }
@@ -447,7 +468,7 @@ pub fn run(opts: &Opts) -> i32 {
             for x in &s2 {
                 for y in &s2 {
                     for z in &s1 {
-                        f5.push(Scenario { base: b, seqs: vec![x.clone(), y.clone(), z.clone()] });
+                        f5.push(Scenario { base: b, seqs: vec![x.clone(), y.clone(), z.clone()], overlap: false });
                     }
                 }
             }
